@@ -143,4 +143,61 @@ theorem buildBlocks_eq {K : Type} (sz : Table.Entry K → Nat) (bs : Nat) (es : 
   have := build_loop sz bs es [] 0 []
   simpa using this
 
+/-! ### `table.Build`, second part: index entries and data region -/
+
+section BuildIndex
+variable {α κ β : Type}
+
+/-- the index entries of the blocks `bs` when the first of them starts at offset `off` -/
+def ixFrom (encData : List α → List β) (keyOf : α → κ) (dflt : α) : Nat → List (List α) → List (κ × κ × Nat × Nat)
+  | _, [] => []
+  | off, b :: bs => (keyOf (b.headD dflt), keyOf (b.getLastD dflt), (off, (encData b).length)) ::
+      ixFrom encData keyOf dflt (off + (encData b).length) bs
+
+theorem buildIndex_loop (encData : List α → List β) (keyOf : α → κ) (dflt : α) (bs : List (List α))
+    (ix : List (κ × κ × Nat × Nat)) (dh : Nat × Nat) (off : Nat) (buf : List β) :
+    List.foldr (fun (block : List α) kont1 => fun (ixEntries : List (κ × κ × Nat × Nat)) (dataHandle : Nat × Nat) (offset : Nat) (buf : List β) =>
+        kont1 (ixEntries ++ [(keyOf (block.headD dflt), keyOf (block.getLastD dflt), (offset, (encData block).length))]) dataHandle
+          (offset + (encData block).length) (buf ++ encData block))
+      (fun ixEntries dataHandle offset buf => some (ixEntries, ((0 : Nat), offset), buf)) bs ix dh off buf =
+    some (ix ++ ixFrom encData keyOf dflt off bs, (0, off + (bs.flatMap encData).length), buf ++ bs.flatMap encData) := by
+  induction bs generalizing ix off buf with
+  | nil => simp [ixFrom]
+  | cons b bs ih =>
+    simp only [List.foldr_cons, ixFrom, List.flatMap_cons, List.length_append]
+    rw [ih]
+    simp [List.append_assoc, Nat.add_assoc]
+
+/-- the translated index-building loop of `table.Build`: the data region of the file is the concatenation of the encoded blocks,
+    the index has one entry per block — first key, last key, and the offset and length at which the block's encoding lies in
+    the data region — and the data handle spans exactly the data region -/
+theorem buildIndex_eq (encData : List α → List β) (keyOf : α → κ) (dflt : α) (bs : List (List α)) :
+    GenTable.buildIndex encData keyOf dflt bs =
+      some (ixFrom encData keyOf dflt 0 bs, (0, (bs.flatMap encData).length), bs.flatMap encData) := by
+  unfold GenTable.buildIndex
+  simp only [Bool.false_eq_true, ↓reduceIte]
+  rw [buildIndex_loop]
+  simp
+
+/-- every index entry's handle cuts the encoding of its own block out of the data region -/
+theorem ixFrom_cuts (encData : List α → List β) (keyOf : α → κ) (dflt : α) (pre : List β) (bs : List (List α)) (i : Nat) (hi : i < bs.length) :
+    ∃ e, (ixFrom encData keyOf dflt pre.length bs)[i]? = some e ∧
+      e.1 = keyOf (bs[i].headD dflt) ∧ e.2.1 = keyOf (bs[i].getLastD dflt) ∧
+      ((pre ++ bs.flatMap encData).drop e.2.2.1).take e.2.2.2 = encData bs[i] := by
+  induction bs generalizing pre i with
+  | nil => simp at hi
+  | cons b bs ih =>
+    cases i with
+    | zero =>
+      refine ⟨(keyOf (b.headD dflt), keyOf (b.getLastD dflt), (pre.length, (encData b).length)), by simp [ixFrom], rfl, rfl, ?_⟩
+      simp [List.flatMap_cons]
+    | succ i =>
+      have hi' : i < bs.length := by simpa using hi
+      obtain ⟨e, he, h1, h2, h3⟩ := ih (pre ++ encData b) i hi'
+      refine ⟨e, ?_, by simpa using h1, by simpa using h2, ?_⟩
+      · simpa [ixFrom, List.length_append] using he
+      · simpa [List.flatMap_cons, List.append_assoc] using h3
+
+end BuildIndex
+
 end TableTie
